@@ -41,7 +41,7 @@ func conversionCollectionToList(ety cty.Type, conv conversion) conversion {
 			}
 
 			if val.IsNull() {
-				val = cty.NullVal(val.Type().WithoutOptionalAttributesDeep())
+				val = cty.NullVal(val.Type().WithoutOptionalAttributesDeep()).WithSameMarks(val)
 			}
 
 			elems = append(elems, val)
@@ -104,7 +104,7 @@ func conversionCollectionToSet(ety cty.Type, conv conversion) conversion {
 			}
 
 			if val.IsNull() {
-				val = cty.NullVal(val.Type().WithoutOptionalAttributesDeep())
+				val = cty.NullVal(val.Type().WithoutOptionalAttributesDeep()).WithSameMarks(val)
 			}
 
 			elems = append(elems, val)
@@ -257,7 +257,7 @@ func conversionTupleToSet(tupleType cty.Type, setEty cty.Type, unsafe bool) conv
 			}
 
 			if val.IsNull() {
-				val = cty.NullVal(val.Type().WithoutOptionalAttributesDeep())
+				val = cty.NullVal(val.Type().WithoutOptionalAttributesDeep()).WithSameMarks(val)
 			}
 
 			elems = append(elems, val)
@@ -543,7 +543,7 @@ func conversionMapToObject(mapType cty.Type, objType cty.Type, unsafe bool) conv
 			}
 
 			if val.IsNull() {
-				val = cty.NullVal(val.Type().WithoutOptionalAttributesDeep())
+				val = cty.NullVal(val.Type().WithoutOptionalAttributesDeep()).WithSameMarks(val)
 			}
 
 			elems[name.AsString()] = val
